@@ -141,6 +141,7 @@ int main(int argc,char **argv){
       printf("tell0 %ld\n",(long)ov_pcm_tell(&vf));
     }
     int prevlink=-1; g_crossed=0; long holes=0; long srun[MAXLINKS]; memset(srun,0,sizeof srun);
+    int lapfail=0; long lap_until=-1, lapspan=0; for(int i=0;i<nref;i++)if(ref[i].bs0/2>lapspan)lapspan=ref[i].bs0/2;   /* a lapped seek cross-fades at most half a short block */
     for(char *tk=strtok(ops," ");tk;tk=strtok(NULL," ")){
       if(!strcmp(tk,"ops"))continue;
       long rc=0; long cnt=-1; int lk=-1; int isseek=0;
@@ -170,9 +171,9 @@ int main(int argc,char **argv){
           /* under half-rate an odd-length link ends one position past its length: allow that single step at a link change */
           { long d=(long)(after-before)-(rc<<hs);
             if(bs!=prevlink&&prevlink>=0&&hs)g_crossed+=(bs-prevlink>0?bs-prevlink:1);
-            if(seekable&&d!=0&&!(hs&&g_crossed&&d<0&&d>=-g_crossed))printf("prop advance FAIL before=%ld after=%ld n=%ld\n",(long)before,(long)after,rc);
+            if(seekable&&!lapfail&&d!=0&&!(hs&&g_crossed&&d<0&&d>=-g_crossed))printf("prop advance FAIL before=%ld after=%ld n=%ld\n",(long)before,(long)after,rc);
             prevlink=bs; }
-          if(p&&seekable&&!compare(p,rc,bs,(long)before,hs))printf("prop ident FAIL op=%s pos=%ld link=%d n=%ld\n",tk,(long)before,bs,rc);
+          if(p&&seekable&&!lapfail&&!((long)before<lap_until)&&!compare(p,rc,bs,(long)before,hs))printf("prop ident FAIL op=%s pos=%ld link=%d n=%ld\n",tk,(long)before,bs,rc);
           if(p&&!seekable){ /* streaming: no absolute positions; compare by the running count within the link */
             if(bs>=0&&bs<nref&&bs<MAXLINKS){
               int okc=(srun[bs]+rc<=ref[bs].n);
@@ -185,6 +186,10 @@ int main(int argc,char **argv){
       }
       else if(!strcmp(tk,"tell")){ rc=0; }
       if(isseek&&rc==0){ g_crossed=0; prevlink=-1; }
+      if(isseek&&rc==0){ lap_until=(tk[1]=='l')?(long)ov_pcm_tell(&vf)+lapspan:-1; }
+      /* a lapped seek that gives up (end of the landing link while priming) has consumed pages on the way: what the handle
+         does until the next successful seek is compared with the model only */
+      if(isseek&&tk[1]=='l'&&rc!=0&&rc!=OV_EINVAL)lapfail=1; else if(isseek&&rc==0)lapfail=0;
       if(!strncmp(tk,"hr:",3)){ g_crossed=0; prevlink=-1; }
       printf("op %s | %ld tell %ld raw %ld time %.9g rs %d cl %d link %d\n",tk,rc,(long)ov_pcm_tell(&vf),(long)ov_raw_tell(&vf),
              (vf.ready_state>=2&&vf.pcm_offset>=0)?ov_time_tell(&vf):-1.0,vf.ready_state,vf.current_link,lk);
